@@ -345,6 +345,10 @@ def run(repo: Repo, rep: Report, tier: str) -> None:
     from .c09 import absolute_padding_rule
 
     absolute_padding_rule(repo, rep, "C01.R17")
+    from .c11 import union_write_fold_rule
+
+    union_write_fold_rule(repo, rep, "C01.R18")
+
 
 
 
